@@ -16,6 +16,8 @@ import (
 	"fmt"
 	"io"
 	"os"
+	"runtime"
+	"runtime/debug"
 	"sort"
 	"strings"
 	"testing"
@@ -202,6 +204,39 @@ func c03fOracle(p c03fParam, got string) (string, string) {
 				last[key] = k
 			}
 		}
+		if p.Readers == 1 {
+			// one reader = ordered input (the default of every command: several files WITHOUT --no-order):
+			// the stream is the concatenation of the files in the order of the list
+			var gotIds, wantIds []string
+			for _, l := range sorted {
+				if l == "" {
+					continue
+				}
+				for _, id := range strings.Split(strings.SplitN(l, ":", 2)[1], ",") {
+					if id != "" {
+						gotIds = append(gotIds, id)
+					}
+				}
+			}
+			for i, f := range p.Files {
+				k := 0
+				for _, sz := range f {
+					for j := 0; j < sz; j++ {
+						wantIds = append(wantIds, fmt.Sprintf("f%d_%d", i, k))
+						k++
+					}
+				}
+			}
+			if len(gotIds) == len(wantIds) && strings.Join(gotIds, ",") != strings.Join(wantIds, ",") {
+				sg := append([]string{}, gotIds...)
+				sw := append([]string{}, wantIds...)
+				sort.Strings(sg)
+				sort.Strings(sw)
+				if strings.Join(sg, ",") == strings.Join(sw, ",") {
+					return "reordered:files-not-in-list-order", fmt.Sprintf("one reader: records delivered as %v, the files in list order give %v:\n%s", gotIds, wantIds, got)
+				}
+			}
+		}
 		for id := range want {
 			if seen[id] == 0 {
 				return "lost", fmt.Sprintf("record %s never delivered:\n%s", id, got)
@@ -288,6 +323,15 @@ func TestVerifC03F(t *testing.T) {
 	}
 	r := verifkit.New("C03")
 	defer r.Write()
+	// the explorer identifies locations by address: no collection (address re-use) inside an execution
+	defer debug.SetGCPercent(debug.SetGCPercent(-1))
+	nexec := 0
+	reset := func() {
+		nexec++
+		if nexec%256 == 0 {
+			runtime.GC()
+		}
+	}
 
 	check := func(p c03fParam) func(x *vsched.Exec) string {
 		return func(x *vsched.Exec) string {
@@ -377,7 +421,7 @@ func TestVerifC03F(t *testing.T) {
 			r.Sample(p)
 		}
 		cfg := vsched.Config{Name: p.Scn, Preemptions: p.Bound, DelayBounding: p.Mode == "delay", Full: p.Mode == "full",
-			Policy: p.Policy, Horizon: 20000, MaxExec: 300000, Expired: r.Expired, Check: check(p)}
+			Policy: p.Policy, Horizon: 20000, MaxExec: 300000, Expired: r.Expired, Check: check(p), Reset: reset}
 		vsched.MapOrderChoices = true
 		st := vsched.Explore(cfg, func(x *vsched.Exec) { x.Obs = c03fBody(p) })
 		vsched.MapOrderChoices = false
@@ -400,7 +444,7 @@ func TestVerifC03F(t *testing.T) {
 		for _, v := range st.Violations {
 			parts := strings.SplitN(v.Desc, "|", 2)
 			key := "obiformats/" + p.Scn + "/" + parts[0]
-			if p.Arrival != "" {
+			if p.Arrival != "" && !strings.Contains(parts[0], "files-not-in-list-order") {
 				key += ":batches-of-a-file-arrive-out-of-order"
 			}
 			if seen[key] {
@@ -409,7 +453,7 @@ func TestVerifC03F(t *testing.T) {
 			seen[key] = true
 			q := p
 			q.Choices = v.Choices
-			r.Violate(key, fmt.Sprintf("%s files=%v arrival=%q readers=%d parts=%v batch=%d mode=%s policy=%d schedule=%v: %s", p.Scn, p.Files, p.Arrival, p.Readers, p.Parts, p.Batch, p.Mode, p.Policy, v.Choices, parts[1]), q)
+			r.Violate(key, fmt.Sprintf("%s files=%v arrival=%q readers=%d parts=%v batch=%d mode=%s policy=%d: %s [schedule=%v]", p.Scn, p.Files, p.Arrival, p.Readers, p.Parts, p.Batch, p.Mode, p.Policy, parts[1], v.Choices), q)
 		}
 	}
 	r.RequireNonVacuous("outcome_completed")
